@@ -110,7 +110,12 @@ def are_joinable(
             for edge in block1.outgoing_edges
             if not _is_fallthrough_edge(edge) or edge.target != block2
         )
-        if any_out_edges and block2.size != 0:
+        falls_through = any(
+            edge
+            for edge in block1.outgoing_edges
+            if _is_fallthrough_edge(edge) and edge.target == block2
+        )
+        if any_out_edges and (block2.size != 0 or not falls_through):
             return JoinableResult(False, "block1 has outgoing edges")
 
         any_in_edges = any(
